@@ -87,6 +87,9 @@ def run(ctx):
              ('cf1d', dict(ny=3, nx=4, bounds=True, bad_bounds=rng.choice(['transposed', 'three']))),
              ('cf1d', dict(ny=3, nx=4, mixed_dtypes='lon_int')), ('cf1d', dict(ny=4, nx=3, mixed_dtypes='lat_int')),
              ('cf1d', dict(ny=3, nx=3, mixed_dtypes='lon_f4')),
+             # single-cell datasets
+             ('cf1d', dict(ny=1, nx=1, bounds=True)), ('cf2d', dict(ny=1, nx=1, bounds=True, holes='none', invalid=False)),
+             ('shoc_standard', dict(nj=1, ni=1, holes='none', invalid=False)), ('ugrid', dict(w=1, h=1, invalid=False)),
              ('shoc_simple', dict(ny=3, nx=4, bounds=False, holes='random')),
              ('shoc_standard', dict(nj=3, ni=3, holes='corner')), ('shoc_standard', dict(nj=2, ni=3, invalid=True)),
              ('ugrid', dict(w=3, h=3)), ('ugrid', dict(w=2, h=2, invalid=True))]
@@ -97,6 +100,11 @@ def run(ctx):
     hang_faces = [[0, 1, 2, 3], [1, 4, 5, 6], [6, 5, 7, 2]]
     datasets.append(gen.ugrid(rng, mesh=(hang_nodes, hang_faces), invalid=False, supplied=set()))
     datasets.append(gen.cf2d(rng, ny=3, nx=3, bounds=True, holes='none', invalid=False, overlap=True))
+    # every face has four nodes but the table is six wide (each row padded with fill entries); zero-based with fill, one-based
+    # writing 'nothing' as 0
+    for si, fl in ((0, 'attr'), (1, 'attr0'), (0, 'nan')):
+        datasets.append(gen.ugrid(rng, mesh=gen.lattice_mesh(rng, 3, 2, variety=False, drop=False), invalid=False, supplied=set(),
+                                  start_index=si, fill=fl, extra_width=2, transposed=False))
     while len(datasets) < n_ds:
         datasets.append(gen.any_dataset(rng))
     exprs = [f'(option_map observe {pm.raw_expr(d)})' for d in datasets]
